@@ -6,7 +6,35 @@ import subprocess
 
 ROOT = os.path.dirname(os.path.dirname(os.path.abspath(__file__)))
 
+SCHED_NOTE = ("Grevm.tla at the grain of the SCHED hook points; blocks of spec/grevm_blocks.json; one thread runs at a time "
+              "under the controller, switching at hook points only; sequentially consistent memory; stock revm (same precompile adapter) as in-order oracle")
+SCHED_TECH = ("TLC model checking of Grevm.tla (guard-switch counterexamples replayed on the code) + controlled runs of the real "
+              "scheduler with monitors + TLC trace validation of every recorded run against the specification")
+
 CLAIMS = {
+    "C01": dict(category="model_checking",
+                text="Grevm.tla (workers, finality, commit, dependency graph, cursors, wait slots, abort and sequential replay) is model-checked for equality of the final outcomes and state with the in-order reference of the block programs (2-transaction blocks exhaustively, 3-transaction blocks by random behaviours); the real scheduler is run on the concrete blocks under the step controller with 1-3 workers (PCT/random schedules plus the counterexample schedules of the guard switches), outcomes and the full bundle are compared with stock revm, and every recorded run is validated as a behaviour of the specification.",
+                design_ref="DESIGN.md 6 (C01), 5", note=SCHED_NOTE, technique=SCHED_TECH),
+    "C02": dict(category="model_checking",
+                text="Invariants of Grevm.tla on every state: the commit log is in order, once, equal to the in-order effect per transaction (CommitMatchesRef), every finalized incarnation read exactly the in-order pre-state (CommittedReadsFresh), finality never rests on a validation older than a covering rewind (FinalityFresh). On the code every commit event (result digest, state delta, reward) is compared with step k of the stock-revm reference, and the same invariants are evaluated by TLC on each recorded run; guard-switch counterexamples (rewind on new write, storage-origin validation, timestamp checks ...) are replayed.",
+                design_ref="DESIGN.md 6 (C02), 5.3, 5.4", note=SCHED_NOTE, technique=SCHED_TECH),
+    "C03": dict(category="model_checking",
+                text="Grevm.tla with programs whose validity depends on an earlier transaction (both directions) is checked for skip-iff-invalid-in-order and for state equality; the real scheduler runs blocks of plain transfers containing nonce-too-low/high/duplicate, nonce chains, insufficient funds made good or caused by earlier transactions, low intrinsic gas, with the nonce check on and off, on 1-3 workers and on the sequential path; outcomes (InvalidTransaction values included) and bundles are compared with stock revm and traces are validated (commit-time nonce verdicts included).",
+                design_ref="DESIGN.md 6 (C03)", note=SCHED_NOTE + "; invalid kinds limited to those plain transfers can express", technique=SCHED_TECH),
+    "C04": dict(category="fault_enumeration",
+                text="For every database key the block touches (each storage slot, each sender, the driver, the holder, the fee recipient) and both fault modes (persistent, fail-once) the real scheduler is run under controlled schedules and judged as the property states: a persistent fault against in-order execution on the same faulty database, a transient one as absorbed or as an exact prefix; in addition Grevm.tla is model-checked on the error templates (an error seen only by a stale attempt is never reported: FinalOk), and the counterexample of the pre-fix behaviour (finding F2) is replayed on the code.",
+                design_ref="DESIGN.md 6 (C04), 7", note=SCHED_NOTE + "; block-hash and code-hash keys are not read by these programs", technique="fault enumeration on the real scheduler under the controller + TLC model checking of Grevm.tla + witness replay"),
+    "C05": dict(category="model_checking",
+                text="Grevm.tla has no stall timer: TLC's deadlock check on every explored block and <>Terminated under per-thread weak fairness (thorough tier) decide termination of the design, including abort, fallback and fatal paths; the counterexamples of the notification and re-offer guards are deadlocks that are replayed on the code. Under the controller park has no timeout, so a lost wake-up or lost re-offer in the real scheduler is a detected deadlock; runs cover 1-3 workers, error and fallback blocks, and a panic injected at every database key (the payload must reach the caller).",
+                design_ref="DESIGN.md 6 (C05)", note=SCHED_NOTE, technique=SCHED_TECH + " (deadlock / liveness)"),
+    "C15": dict(category="model_checking",
+                text="Cursor.tla (claim_before load/CAS loop, fetch_min rewind, frontier publish/advance/helping reader, rewind timestamps; one action per atomic operation) is model-checked exhaustively on six scripts for: no claim at or beyond the limit read, every rewound index re-offered, frontier never passes an unexecuted transaction and catches up; the production functions are driven through all schedules within a preemption bound plus random ones and every run is validated against the specification. The finality-timestamp clause is decided in Grevm.tla (FinalityFresh).",
+                design_ref="DESIGN.md 6 (C15)", note="sequentially consistent memory only: weak-memory reorderings are not explored (stated in the evidence)",
+                technique="TLC model checking of Cursor.tla + controlled interleavings of the production cursor functions validated against the spec"),
+    "C16": dict(category="model_checking",
+                text="TxDep.tla (next/add/remove/commit/key_tx, one action per lock region and per cursor operation, with the scheduler's caller contract and a commit thread) is model-checked for: no orphan (the stuck state is unreachable), one claimer per release, no premature release through a stale reverse edge, termination under fairness; the production TxDependency is driven by probe workers through preemption-bounded and PCT schedules and every run is validated against the specification.",
+                design_ref="DESIGN.md 6 (C16)", note="caller contract as modelled; sequentially consistent memory; scripts of spec/txdep_scripts.json",
+                technique="TLC model checking of TxDep.tla + controlled interleavings of the production TxDependency validated against the spec"),
     "C17": dict(
         category="model_checking",
         text="WaitSlot.tla (one waiter, publishing and spurious notifiers, park without timeout) is model-checked exhaustively for the lost-wake-up invariant, deadlock and liveness; the production WaitSlot is then driven through every interleaving (depth-first, preemption-bounded for the larger configurations) of the coordinator protocol under the step controller, a deadlock of that run being a lost wake-up, and every recorded run is validated as a behaviour of the specification with its invariants evaluated per event.",
